@@ -13,6 +13,7 @@ ASSUMPTIONS = {
  'A8': 'A8 partial correctness: termination is not proved (except the loop-exit obligations of C15)',
  'A9': 'A9 static method resolution: self.m() resolves to the class named in the spec',
  'A10': 'A10 left-to-right evaluation, insertion-ordered dicts; iteration order over a dict is arbitrary but duplicate-free',
+ 'A12': 'A12 BaseComponent.advance (utils/component.py) as used by the agent scheduler sets thing["state"], publishes and pushes as its arguments say and does not touch the scheduler\'s own structures; the agent-side wrapper AgentComponent.advance is under contract (C05), the base implementation is not',
  'A11': 'A11 pyvc, z3 and cvc5 are the trusted computing base (canaries, cover checks, self-test edits and the CPython cross-check are the guards)',
 }
 
@@ -202,14 +203,31 @@ PROPS['C07'] = dict(
 PROPS['C08'] = dict(
     level='other',
     claim='cancel handling: BaseComponent.is_canceled (exactly the named tasks are reported CANCELED once and the request consumed, others untouched), the executor\'s cancel command (only named uids are passed to cancel_task, bystanders keep their entry and are not finished), Popen.cancel_task (finishes only a task the executor still owns, once, as CANCELED; everything else untouched) are verified for every state; one recorded finding: a placed task canceled at the executor intake is not released',
-    note='the scheduler-side removal from the wait pool (_schedule_incoming, cancel branch) and TaskManager.cancel_tasks are not yet under contract; end-to-end composition across components is assumed (message transport)',
+    note='TaskManager.cancel_tasks and the raptor backlog branch of the scheduler control_cb are not yet under contract; end-to-end composition across components is assumed (message transport)',
     assumptions=['A2', 'A4', 'A5', 'A7', 'A9', 'A11'],
     explanation='frame contracts at each component + recorded finding (known_findings.json)',
     clauses={'named task met later is canceled instead of processed': 'P',
              'kill running process, resources freed exactly once, ends CANCELED unless finished': 'P (operation level)',
              'bystanders unaffected at the executor': 'P',
              'placed task canceled at the executor intake releases its placement': 'KNOWN FINDING (open)',
-             'wait pool removal (scheduler)': 'not yet built'})
+             'wait pool removal (scheduler): named waiting tasks leave the pool and are canceled once, bystanders stay': 'P'})
+
+PROPS['C04'] = dict(
+    level='other',
+    claim='the agent scheduler loop (agent/scheduler/base.py) under contract, function by function: work() queues every task handed in exactly once; _schedule_incoming is verified in its parts - cancel branch, intake of a bulk (fail / schedule here / forward to raptor: exactly one), placement loop over priorities (each task started with a placement, failed, canceled or waiting under its priority: exactly one; every report is the first for its task; every started task is counted in _active_cnt), entry into the wait pool with the late cancel check; _try_allocation fails a task for lack of resources only when nothing is running; all obligations discharged for every bulk, pool and node list. Starvation / promptness / priority clauses over whole runs are decided by a bounded native search over histories of the real loop (labelled bounded); one recorded finding (partition tasks)',
+    note='the composition of the parts into whole runs (incoming queue -> wait pool -> release queue over time) is explored only by the bounded native histories; _schedule_waitpool and the resources flag of the main loop are not yet under contract; schedule_task completeness ("a task that fits the free resources is placed") is not proved',
+    assumptions=['A2', 'A4', 'A5', 'A7', 'A9', 'A10', 'A11', 'A12'],
+    trusted_base=['BaseComponent.advance: sets thing["state"], publishes and pushes as told (A12)'],
+    explanation='ghost fate map (uid -> none / started / failed / canceled): every advance to AGENT_EXECUTING_PENDING, FAILED or CANCELED carries the obligation that the task had no fate yet; per-fragment contracts composed through statement contracts',
+    bounded=[dict(name='sched-histories', cmd=['harness/run_bounded.py', 'sched-histories'], timeout=900)],
+    clauses={'exactly one of started / waiting / failed / canceled (per function)': 'P',
+             'reported at most once': 'P',
+             'started only with a placement, pushed on': 'P',
+             'failed for lack of resources only on an idle pilot (_active_cnt == 0)': 'P',
+             'waiting alone is started as soon as enough is released': 'B (bounded histories)',
+             'idle pilot starts a fitting waiter; fitting task never failed': 'B (bounded histories); KNOWN FINDING for partition tasks',
+             'higher priority first': 'B (bounded histories)',
+             'interleaving of cancel requests between loop steps': 'P at the queue boundary (cancel arrives as a queue item) + B'})
 
 PROPS['C05'] = dict(
     level='other',
